@@ -77,6 +77,41 @@ func genMessages(rng *rand.Rand, n int, maxSize int) []*jsonrpc2.Message {
 	return out
 }
 
+// sizedMessages: one request per size in sizes whose JSON encoding is exactly that many bytes long (decoders read
+// ahead in buffers of 512, 1024, 2048, 4096 ... bytes: a message ending exactly at, just before or just after the
+// end of a buffer is where framing code goes wrong)
+func sizedMessages(sizes []int) []*jsonrpc2.Message {
+	var out []*jsonrpc2.Message
+	for _, size := range sizes {
+		id, _ := json.Marshal(size)
+		mk := func(pad int) *jsonrpc2.Message {
+			params, _ := json.Marshal([]interface{}{strings.Repeat("p", pad)})
+			return &jsonrpc2.Message{ID: id, Version: "2.0", Request: &jsonrpc2.Request{Method: "vip_size", Params: params}}
+		}
+		b, _ := json.Marshal(mk(0))
+		if size < len(b) {
+			continue
+		}
+		m := mk(size - len(b))
+		if b2, _ := json.Marshal(m); len(b2) != size {
+			fatal("sizedMessages: %d != %d", len(b2), size)
+		}
+		out = append(out, m)
+	}
+	return out
+}
+
+func intRange(from, to int) []int {
+	var r []int
+	for i := from; i <= to; i++ {
+		r = append(r, i)
+	}
+	return r
+}
+
+// firstSizes: sizes for the first message of a connection (each followed by two small messages)
+var firstSizes = []int{511, 512, 513, 1023, 1024, 1025, 1535, 1536, 1537, 2047, 2048, 2049, 3583, 3584, 3585, 4095, 4096, 4097}
+
 func canon(m *jsonrpc2.Message) string {
 	b, _ := json.Marshal(m)
 	var v interface{}
@@ -169,10 +204,15 @@ func emitCodec(tr *Trace, codec, cut string, sent []string, recv []string, err e
 }
 
 func ioCases(tr *Trace, rng *rand.Rand, cases int) {
-	for k := 0; k < cases; k++ {
+	for k := 0; k < cases+2; k++ {
 		n := 1 + rng.Intn(6)
 		maxSize := []int{8, 64, 5000, 70000, 300000}[rng.Intn(5)]
 		msgs := genMessages(rng, n, maxSize)
+		if k == cases {
+			msgs = sizedMessages(intRange(100, 2300)) // every size around the decoder's read-ahead buffers, one stream
+		} else if k == cases+1 {
+			msgs = sizedMessages(intRange(2300, 4400))
+		}
 		var buf bytes.Buffer
 		w := jsonrpc2.IOCodec(rwcT{nil, &buf, nopCloser{}})
 		var sent []string
@@ -364,7 +404,7 @@ func socketCases(tr *Trace, rng *rand.Rand, cases int) {
 		srvH := &wsServer{recvd: make(chan []string, 1), kind: kind}
 		srv := httptest.NewServer(srvH)
 		url := "ws" + strings.TrimPrefix(srv.URL, "http")
-		for k := 0; k < cases; k++ {
+		for k := 0; k < cases+2+len(firstSizes); k++ {
 			mode := []string{"dribble", "coalesce", "plain"}[k%3]
 			writers := 1
 			if k%4 == 3 && kind == "gorilla" {
@@ -372,6 +412,18 @@ func socketCases(tr *Trace, rng *rand.Rand, cases int) {
 			}
 			msgs := genMessages(rng, 4+rng.Intn(20), []int{16, 2000, 70000}[rng.Intn(3)])
 			push := genMessages(rng, 1+rng.Intn(5), 3000)
+			switch {
+			case k == cases: // every message size from 100 to 4400 bytes on one connection, client to server
+				mode, writers = "plain", 1
+				msgs = sizedMessages(intRange(100, 4400))
+			case k == cases+1: // and server to client
+				mode, writers = "plain", 1
+				push = sizedMessages(intRange(100, 4400))
+			case k > cases+1: // a given size as the first message of a fresh connection, in both directions
+				mode, writers = "plain", 1
+				msgs = sizedMessages([]int{firstSizes[k-cases-2], 120, 130})
+				push = sizedMessages([]int{firstSizes[k-cases-2], 140, 150})
+			}
 			srvH.mu.Lock()
 			srvH.want, srvH.push = len(msgs), push
 			srvH.mu.Unlock()
